@@ -49,7 +49,7 @@ GPFCorrection::GPFCorrection(GPFCorrection&& correction) noexcept :
     state_model_(std::move(correction.state_model_)),
     generator_(std::move(correction.generator_)),
     distribution_(std::move(correction.distribution_)),
-    gaussian_random_sample_(std::move(correction.gaussian_random_sample_)),
+    gaussian_random_sample_([&] { return (distribution_)(generator_); }),
     valid_likelihood_(correction.valid_likelihood_),
     likelihood_(std::move(correction.likelihood_))
 { }
@@ -67,7 +67,7 @@ GPFCorrection& GPFCorrection::operator=(GPFCorrection&& correction) noexcept
 
     distribution_ = std::move(correction.distribution_);
 
-    gaussian_random_sample_ = std::move(correction.gaussian_random_sample_);
+    /* gaussian_random_sample_ keeps referring to the generator and distribution of this object. */
 
     valid_likelihood_ = correction.valid_likelihood_;
 
